@@ -139,18 +139,25 @@ pub fn ends_lattice(kind: u8, custom: &[f64], positive: bool) -> Vec<f64> {
     let one_up = next_up(1.0);
     let one_dn = next_down(1.0);
     let mut l: Vec<f64> = if positive {
-        match kind % 4 {
+        match kind % 6 {
             0 => vec![0.05, 0.5, one_dn, 1.0, one_up, 2.0, std::f64::consts::E, 3.0, 10.0, 20.0],
             1 => vec![0.25, 0.5, 0.75, 1.0, 1.25, 1.5, 2.0, 4.0],
             2 => vec![0.79, 0.9, 0.99, 1.0, 1.01, 1.1, 1.2, next_up(1.2)],
+            // long grids: inexact regular step 0.1·k, and integers
+            3 => (1..=64).map(|k| 0.1 * k as f64).collect(),
+            4 => (1..=20).map(|k| k as f64).collect(),
             _ => custom.iter().map(|x| x.abs().clamp(0.05, 20.0)).collect(),
         }
     } else {
-        match kind % 6 {
+        match kind % 8 {
             0 => vec![-2.0, -1.0, -0.0, 0.0, 5e-324, 1.0, one_up, 2.0, 3.0, 1e300],
             1 => vec![f64::NEG_INFINITY, -f64::MAX, -1.0, 0.0, 1.0, next_up(1.0), f64::MAX, f64::INFINITY],
             2 => vec![1.0, 2.0, 3.0, 4.0, 5.0, 6.0, 7.0, 8.0],
             3 => vec![-3.5, next_down(-1.0), -1.0, next_up(-1.0), -5e-324, -0.0, 0.0, f64::MIN_POSITIVE, 0.5, 2.5],
+            // long grids (many distinct ends): integers, and an inexact regular step (0.1·k, a + 0.07·k)
+            4 => (-32..=32).map(|k| k as f64).collect(),
+            5 => (0..=64).map(|k| 0.1 * k as f64).collect(),
+            6 => (0..=64).map(|k| -1.3 + 0.07 * k as f64).collect(),
             _ => custom.to_vec(),
         }
     };
@@ -167,16 +174,29 @@ pub fn ends_lattice(kind: u8, custom: &[f64], positive: bool) -> Vec<f64> {
 /// segments and ends one ulp apart are common.
 pub fn ends(max_len: usize, positive: bool) -> BoxedStrategy<Vec<f64>> {
     let custom_elem = if positive { scaled_pos(-4, 4).boxed() } else { any_non_nan() };
-    (0u8..12, vec(custom_elem, 1..8), vec(any::<u16>(), 1..=max_len))
-        .prop_map(move |(kind, custom, picks)| {
+    (0u8..16, vec(custom_elem, 1..8), vec(any::<u16>(), 1..=max_len), 0u8..8, any::<u16>())
+        .prop_map(move |(kind, custom, picks, mode, start)| {
             let l = ends_lattice(kind, &custom, positive);
-            let mut e: Vec<f64> = picks.iter().map(|&p| l[idx(p, l.len())]).collect();
-            // total order that puts -0.0 before +0.0 is *not* wanted: the library only
-            // requires non-decreasing under `<=`; keep the generated order among ties.
+            let mut e: Vec<f64> = if mode == 0 {
+                // a run of consecutive lattice points (regular grids, no duplicates)
+                let n = picks.len().min(l.len());
+                let s0 = idx(start, l.len() - n + 1);
+                l[s0..s0 + n].to_vec()
+            } else {
+                picks.iter().map(|&p| l[idx(p, l.len())]).collect()
+            };
+            // `sort_by(partial_cmp)` is stable: among ties (e.g. -0.0 / 0.0) the generated order is kept
             e.sort_by(|a, b| a.partial_cmp(b).unwrap());
             e
         })
         .boxed()
+}
+
+/// as `ends`, but one case in ten is a LONG list (up to `long_len` segments): implementations that
+/// switch algorithm with the size of the function (bisection above N segments, inline buffers, ...)
+/// are only reached this way.
+pub fn ends_long(max_len: usize, long_len: usize, positive: bool) -> BoxedStrategy<Vec<f64>> {
+    prop_oneof![9 => ends(max_len, positive), 1 => ends(long_len, positive)].boxed()
 }
 
 /// Query alphabet of a list of ends (optionally of two lists): every end,
@@ -226,7 +246,7 @@ pub fn coeffs(n: usize, emax: i32) -> BoxedStrategy<Vec<f64>> {
         return Just(Vec::new()).boxed();
     }
     let plain = vec(moderate(emax), n..=n);
-    let pattern = (0u8..6, vec(moderate(emax), n..=n), any::<u16>(), any::<u16>()).prop_map(move |(pat, mut c, i, j)| {
+    let pattern = (0u8..8, vec(moderate(emax), n..=n), any::<u16>(), any::<u16>()).prop_map(move |(pat, mut c, i, j)| {
         let i = idx(i, n);
         let j = idx(j, n);
         match pat {
@@ -253,6 +273,13 @@ pub fn coeffs(n: usize, emax: i32) -> BoxedStrategy<Vec<f64>> {
                     *v = 0.0;
                 }
                 c[i] = if keep == 0.0 { 1.0 } else { keep };
+            }
+            6 | 7 => {
+                // "hand-written" vectors: small integers, about half of them zero (1 + ln t, t^4 - 24, ...)
+                for (k, v) in c.iter_mut().enumerate() {
+                    let h = (i as u64).wrapping_mul(0x9E37_79B9).wrapping_add((j as u64) << 7).wrapping_add(k as u64 * 0x85EB_CA6B) >> 3;
+                    *v = if h % 2 == 0 { 0.0 } else { ((h / 2) % 5) as f64 - 2.0 };
+                }
             }
             4 => {
                 // all comparable, distinct small integers (index slips change the value)
